@@ -66,7 +66,7 @@ where
     let (g, big) = match res {
         Err(a) => {
             let v = abort_to_violation(&a);
-            if R::NAME == "Z" && v.class == "panic" && v.message.contains("overflow") {
+            if matches!(R::NAME, "Z" | "Q") && is_machine_overflow(&v) {
                 // machine integers are not Z: an arithmetic-overflow panic of i64 is outside the property
                 rep.counters.insert("i64_overflow_skipped".into(), 1);
                 rep.outcome_class = "i64-overflow".into();
